@@ -25,6 +25,10 @@ Arguments mkCe {A}. Arguments ce_val {A}. Arguments ce_ver {A}. Arguments ce_ok 
 
 Section Model.
 Context {T : Type} (K : NumOps T).
+(** [fx] selects between the code as it is now ([false]) and the repair proposed in patches/C23_extreme_setvalue.diff
+    ([true]: Extreme::setValue also invalidates the isNewExtreme flag entry); the check decides which one the tree under test
+    implements by replaying the witness of extreme_setvalue_refuted, so the same theorems serve before and after the repair. *)
+Variable fx : bool.
 
 Definition vec := list T.
 Definition neqb (a b : T) : bool := nleb K a b && nleb K b a.
@@ -212,7 +216,8 @@ Definition x_auto (E : env) (m : extm) : extm :=
 (* Extreme::setValue = updDiscreteVariable(extremeIx): invalidates Dynamics (done by the caller on env) and the
    variable's own update entry -- not the isNewExtreme entry *)
 Definition x_set (E : env) (m : extm) (v : vec) : extm :=
-  mkX (x_op m) (x_src m) v (Some (e_t E)) (invalidate (x_upd m)) (x_new m) (x_newupd m).
+  mkX (x_op m) (x_src m) v (Some (e_t E)) (invalidate (x_upd m)) (x_new m)
+      (if fx then invalidate (x_newupd m) else x_newupd m).
 
 (* ------------------------------------------------------------------ layer 2b: Delay *)
 Definition entry := (T * vec)%type.
